@@ -374,19 +374,30 @@ class TrAcc(TrProc):
         return list(dict.fromkeys(out))
 
     @staticmethod
-    def isna_field(t):
-        """`pd.isna(self.F)` -> F"""
+    def self_path(e):
+        """`self.F` -> "F"; `self.A.B` -> "A.B"; anything else -> None"""
+        if isinstance(e, ast.Attribute) and isinstance(e.value, ast.Name) and e.value.id == "self":
+            return e.attr
+        if isinstance(e, ast.Attribute) and isinstance(e.value, ast.Attribute) and isinstance(e.value.value, ast.Name) and e.value.value.id == "self":
+            return e.value.attr + "." + e.attr
+        return None
+
+    @classmethod
+    def isna_field(cls, t):
+        """`pd.isna(self.F)` -> F (also `self.A.B` -> "A.B")"""
         if isinstance(t, ast.Call) and isinstance(t.func, ast.Attribute) and t.func.attr == "isna" and isinstance(t.func.value, ast.Name) \
-                and t.func.value.id == "pd" and len(t.args) == 1 and isinstance(t.args[0], ast.Attribute) \
-                and isinstance(t.args[0].value, ast.Name) and t.args[0].value.id == "self":
-            return t.args[0].attr
+                and t.func.value.id == "pd" and len(t.args) == 1:
+            return cls.self_path(t.args[0])
         return None
 
     def expr(self, e):
         if isinstance(e, ast.Constant) and e.value == "":
             return [], "([] : Str)"
-        if isinstance(e, ast.Attribute) and isinstance(e.value, ast.Name) and e.value.id == "self" and e.attr in getattr(self, "bound", {}):
-            return [], self.bound[e.attr]
+        sp = self.self_path(e)
+        if sp is not None and sp in getattr(self, "bound", {}):
+            return [], self.bound[sp]
+        if sp is not None and "." in sp and sp in self.self_fields:
+            return [], "self.%s" % self.self_fields[sp]
         if isinstance(e, ast.Name) and ("param:" + e.id) in getattr(self, "bound", {}):
             return [], self.bound["param:" + e.id]
         if isinstance(e, ast.IfExp):
@@ -399,13 +410,13 @@ class TrAcc(TrProc):
                 present, absent = (e.body, e.orelse) if neg else (e.orelse, e.body)
                 saved = dict(getattr(self, "bound", {}))
                 self.bound = dict(saved)
-                self.bound[fld] = fld + "_"
+                self.bound[fld] = fld.replace(".", "_") + "_"
                 b1, pt = self.expr(present)
                 self.bound = saved
                 b2, at = self.expr(absent)
                 if b1 or b2:
                     raise Unsupported("raising branch of a conditional expression")
-                return [], "(match self.%s with | some %s_ => %s | none => %s)" % (self.self_fields[fld], fld, pt, at)
+                return [], "(match self.%s with | some %s_ => %s | none => %s)" % (self.self_fields[fld], fld.replace(".", "_"), pt, at)
             b0, c = self.expr(e.test)
             b1, a = self.expr(e.body)
             b2, o = self.expr(e.orelse)
@@ -689,6 +700,11 @@ def main():
             out.append("/-- `UALocalizedText.json_encode`; the optional `%s` (default `None`) is an `Option` -/" % a[1])
             out.append("def loctext_json_encode (self : LocText) (%s : Option Str) : Except PyErr Str :=" % a[1])
             out.append(t.stmts(f.body, 1, ".error .typeError"))
+            f = find(dt, "UAEUInformation.xml_encode")
+            out.append("/-- `UAEUInformation.xml_encode` -/")
+            out.append("def euinfo_xml_encode (self : EUInfo) (%s : Bool) : Except PyErr Str :=" % f.args.args[1].arg)
+            out.append(acc({"namespace_uri": "namespace_uri", "unit_id": "unit_id", "display_name.locale": "display_name.locale", "display_name.text": "display_name.text",
+                            "description.locale": "description.locale", "description.text": "description.text"}).stmts(f.body, 1, ".error .typeError"))
     except Unsupported as u:
         print("UNSUPPORTED: %s" % u, file=sys.stderr)
         sys.exit(3)
